@@ -332,6 +332,37 @@ func hsDrive(w *hsWorld, rnd *rand.Rand, steps, tr int, res *vResult) {
 	nodes := []*vNode{A, B, M, X}
 	profile := tr % 4 // 0 mixed, 1 replay heavy, 2 lossy (retries, give-up, queue), 3 simultaneous initiators
 	tag := 0
+	if profile == 1 {
+		// two sessions of one initiator created at the same instant (equal handshake times), delivered in
+		// either order: the second one is not newer than the tunnel the responder then holds
+		w.tunSend(A, addr("10.128.0.2"), "eq-1")
+		w.tunSend(A, addr("10.129.0.2"), "eq-2")
+		var toB []*vDatagram
+		rest := w.inflight[:0:0]
+		for _, d := range w.inflight {
+			if d.To == B.UDP {
+				toB = append(toB, d)
+			} else {
+				rest = append(rest, d)
+			}
+		}
+		w.inflight = rest
+		if rnd.Intn(2) == 0 && len(toB) == 2 {
+			toB[0], toB[1] = toB[1], toB[0]
+		}
+		for _, d := range toB {
+			w.deliver(d, B, d.From)
+		}
+		// let the answers through so that A has no pending handshake left before time moves
+		for len(w.inflight) > 0 {
+			d := w.inflight[0]
+			w.inflight = w.inflight[1:]
+			if to := w.byUDP[d.To]; to != nil && d.H.Type == 0 {
+				w.deliver(d, to, d.From)
+			}
+		}
+		res.Hit("equal-time-prologue")
+	}
 	burstAt := -1
 	if profile == 2 {
 		burstAt = 5 + rnd.Intn(10)
